@@ -103,6 +103,33 @@ def streams(rng, tier, ctx):
             sim.limits = lim
             cid = "r%d" % i
             cases.append((cid, sim.ops)); meta[cid] = sim
+        # the same address again while the server's entry of its previous connection lingers (client-side disconnect: 20 s in
+        # Closed): the old entry's timers must not disturb the accounting of the new connection; then newcomers up to and
+        # beyond the limit
+        for i in range(max(2, n // 4)):
+            r = rng.fork()
+            it.op("=== genl%d" % i)
+            k = r.pick([1, 1, 2])
+            lim = (8, k)
+            sim = E.EpSim(r, inter=it)
+            sim.srv(lim[0], lim[1], r.pick([0, 1]), dict(E.DEFAULT_EP))
+            lat = r.pick([0, 5_000_000])
+            nets = {"c2s": E.Net(latency=lat), "s2c": E.Net(latency=lat)}
+            dt = r.pick([50_000_000, 200_000_000])
+            for j in range(k):
+                sim.cli(j, dict(E.DEFAULT_EP), nets)
+            sim.run(r.range(6, 14), dt, nets)
+            sim.call(r.pick(["cdisc", "cdiscnow"]), 0)
+            sim.run(r.range(3, 10), dt, nets)
+            sim.recli(0, dict(E.DEFAULT_EP), nets)           # retries its SYN every 2 s until the server listens to the address again
+            sim.run(int(r.pick([30, 45]) * 10**9 // dt), dt, nets)
+            for j in range(k, k + 2):
+                sim.cli(j, dict(E.DEFAULT_EP), nets)
+                sim.run(3, dt, nets)
+            sim.run(r.range(10, 30), dt, nets)
+            sim.limits = lim
+            cid = "g%d" % i
+            cases.append((cid, sim.ops)); meta[cid] = sim
     finally:
         it.close()
     return [{"name": "limits", "mode": "ep", "cases": cases, "meta": meta, "case_timeout": 60}]
